@@ -51,4 +51,14 @@ let () =
        | Some ((rr, s), (b0, b1)) ->
          Printf.printf "P %s some %s %s %s %s %s %s\n" id (hz rr) (hz s) (sb b0) (sb b1) (hz kk) (hz c3)
        | None -> Printf.printf "P %s none %s %s\n" id (hz kk) (hz c3))
+    | ["G"; id; q; m; y; rx; odd; over; n; kt; gt; xs; beta; betah] ->
+      let q = z_of_hex q in
+      let ks = List.map (scalar_of_tape q) (tapes kt) in
+      let gs = List.map (scalar_of_tape q) (tapes gt) in
+      let inp = cggmp_inputs_Z q (nat_of_int (int_of_string n)) ks gs (zs xs) (mat beta) (mat betah) in
+      let (r, g) = cggmp_run_Z q inp (z_of_hex m) (z_of_hex y) (z_of_hex rx) (b odd) (b over) in
+      (match r with
+       | Some ((rr, s), (b0, b1)) ->
+         Printf.printf "G %s some %s %s %s %s %s\n" id (hz rr) (hz s) (sb b0) (sb b1) (hz g)
+       | None -> Printf.printf "G %s none %s\n" id (hz g))
     | _ -> failwith ("bad line " ^ line))
